@@ -7,7 +7,7 @@ from harness.common import cps, uncps
 from harness.props.c01 import all_texts
 from harness.props import c03
 
-BRIDGE = ('Gemato.Bridge.Tree', 'Gemato.Bridge.SrcUpdate', 'Gemato.Bridge.SrcVerify', 'Gemato.Bridge.SrcLoader', 'Gemato.Bridge.SrcText', 'Gemato.Bridge.SrcCodec', 'Gemato.Bridge.SrcProfile')
+BRIDGE = ('Gemato.Bridge.Tree', 'Gemato.Bridge.SrcUpdate', 'Gemato.Bridge.SrcVerify', 'Gemato.Bridge.SrcLoader', 'Gemato.Bridge.SrcText', 'Gemato.Bridge.SrcCodec', 'Gemato.Bridge.SrcProfile', 'Gemato.Bridge.SrcCli')
 PROPS = ['Gemato.Props.C10', 'Gemato.Props.C10b', 'Gemato.Props.C10c']
 
 
